@@ -308,6 +308,10 @@ def env_job(job):
     labels = []
     here = os.getcwd()
     place = {'wb': d, 'other': other}
+    s1 = os.path.join(d, stt.loc['S1', 'File Path'])
+    versions = [os.path.join(W.dir, stt.loc['S1', 'File Path']), os.path.join(W.dir, W.files[('A', 'int-b')])]
+    data = 0
+    counts = {}       # number of events the output reports for S1 -> per recording (learnt from the runs themselves)
     try:
         os.chdir(d)
         for k, (op, a) in enumerate(hist):
@@ -315,6 +319,10 @@ def env_job(job):
                 os.chdir(place[a])
             elif op == 'stray':
                 os.makedirs(os.path.join(other, a))
+            elif op == 'replace':
+                data = 1 - data
+                os.remove(s1)
+                shutil.copyfile(versions[data], s1)
             else:
                 out = os.path.join(d, 'experiment_output.xlsx')
                 if os.path.exists(out):
@@ -332,6 +340,18 @@ def env_job(job):
                     break
                 labels += [(x + '/env', y) for x, y in check_output(out, W.instruments.loc[['A']].reset_index(), bt.reset_index(),
                                                                       stt.reset_index(), False)]
+                # the output describes the recording the file holds NOW (RunEnv.OutputFaithful): the event count it
+                # reports for S1 is the one the same workflow reports for that recording under a name of its own
+                got = pd.read_excel(out, sheet_name='Samples', engine='openpyxl').set_index('ID').loc['S1', 'Number of Events']
+                if data not in counts:
+                    t1 = stt.copy()
+                    t1.loc['S1', 'File Path'] = os.path.basename(versions[data])
+                    with warnings.catch_warnings():
+                        warnings.simplefilter('ignore')
+                        counts[data] = int(W.process(t1, 'none')['S1'].shape[0])
+                if int(got) != counts[data]:
+                    labels.append(('output-describes-a-replaced-file/env', 'S1 reported with %r events, the file now holds a recording that gives %d'
+                                   % (got, counts[data])))
                 if a == 'plots':
                     for w in ('plot_beads/density_hist_BOK.png', 'plot_beads/clustering_BOK.png', 'plot_samples/S1.png'):
                         if not os.path.exists(os.path.join(d, w)):
@@ -410,13 +430,14 @@ def main(chk, replay=None):
         chk.extra['apalache'] = apalache.inductive('RunEnvInd')
     cfgs = workbook_configs(chk)
     res3 = tlc.require_ok(tlc.run_tlc('RunEnv', 'SPECIFICATION Spec\nCONSTANT MaxOps = %d\nINVARIANT StrayUntouched\n'
-                                      'INVARIANT FiguresUnderWorkbook\nPROPERTY RunCompletes\nPROPERTY NothingRemoved\n' % (3 if chk.quick else 4),
+                                      'INVARIANT FiguresUnderWorkbook\nPROPERTY RunCompletes\nPROPERTY NothingRemoved\nPROPERTY OutputFaithful\n' % (3 if chk.quick else 4),
                                       dump=True), 'RunEnv')
     chk.add_tlc(res3, 'RunEnv')
     envs = [st for st in res3.dump_states() if st['hist'] and st['hist'][-1][0] == 'run' and len(st['hist']) >= 2]
     if chk.quick:      # histories ending in a run with plots that follows an earlier run or a stray folder
         envs = [st for st in envs if st['hist'][-1][1] == 'plots' and
-                any(h[0] == 'stray' or h == ['run', 'plots'] for h in st['hist'][:-1])]
+                any(h[0] == 'stray' or h == ['run', 'plots'] for h in st['hist'][:-1]) or
+                any(h[0] == 'replace' for h in st['hist'])]
     with mp.get_context('fork').Pool(min(16, os.cpu_count() or 1)) as pool:
         envr = pool.map_async(env_job, list(enumerate(envs)), chunksize=1)
         ex = pool.apply_async(example_job, (not chk.quick,))
